@@ -616,6 +616,14 @@ def modules_family():
     main3 = H + "from library import ma as lib\nwhile True:\n    d1.Setting = lib.bump(d0.Setting) + lib.bump(1)\n    yield_()\n"
     merged3 = H + "ma_count = 1\ndef ma_bump(xa):\n    global ma_count\n    ma_count = ma_count + xa\n    return ma_count\nwhile True:\n    d1.Setting = ma_bump(d0.Setting) + ma_bump(1)\n    yield_()\n"
     out.append(("md_alias", {"": main3, "ma": lib_a}, merged3))
+    # early returns inside library functions, a main-file function of the same name with an early return of its own
+    lib_c = H + "def update(xa):\n    if xa > 1:\n        return xa * 2\n    d3.Setting = xa\n    return xa + 1\n"
+    main4 = (H + "from library import ctl\ndef update(xa):\n    if xa < 0:\n        return 0 - xa\n    d2.Setting = xa\n    return xa + 7\n"
+             "while True:\n    d1.Setting = ctl.update(d0.Setting) + ctl.update(1)\n    db.Setting = update(d0.Setting) + update(2)\n    yield_()\n")
+    merged4 = (H + "def ctl_update(xa):\n    if xa > 1:\n        return xa * 2\n    d3.Setting = xa\n    return xa + 1\n"
+               "def update(xa):\n    if xa < 0:\n        return 0 - xa\n    d2.Setting = xa\n    return xa + 7\n"
+               "while True:\n    d1.Setting = ctl_update(d0.Setting) + ctl_update(1)\n    db.Setting = update(d0.Setting) + update(2)\n    yield_()\n")
+    out.append(("md_early", {"": main4, "ctl": lib_c}, merged4))
     return out
 
 
